@@ -48,4 +48,31 @@ example : (ldProofVerifyBytes Facts.C17.ecAlgBitsTable Facts.C17.sigAlgRsa Facts
     { keyAlg := fun _ => none, verifiesDetached := fun _ _ => true } "K" true ("eyJ.e30.c2ln".toList.map Char.toNat)).accepted = false := by decide
 example : ldJwsParts ("a....b".toList.map Char.toNat) = 3 ∧ ldJwsParts ("a...b".toList.map Char.toNat) = 2 ∧ ldSigDecodes ("a...b".toList.map Char.toNat) = false := by decide
 
+/-! ### wave 9: WHERE the verification algorithm comes from -/
+
+/-- the regenerated source of the algorithm in LDProof.Verify: ONE assignment, from the key; that `alg` is what AlgorithmFitsKey and
+    jws.NewVerifier get; no function of jsonld.go reads an `alg` out of JWS headers -/
+theorem fact_ldProof_alg_source :
+    Facts.C17.ldProofAlgAssign = ["alg, err := nutsCrypto.SignatureAlgorithm(key)"] ∧
+    Facts.C17.ldProofAlgUses = ["jwx.AlgorithmFitsKey(alg, key)", "jws.NewVerifier(alg)"] ∧
+    Facts.C17.ldProofHeaderAlgReaders = [] ∧ Facts.C17.sigAlgRsa = "PS256" := by decide
+
+/-- **ldProof_rsa_key_only_ps256**: with an RSA key handed in, whatever the bytes of the proof's jws (its header included) say, an accepted
+    proof was verified with PS256 — the algorithm the key determines, which is on the shared allow-list; never RS256/384/512 -/
+theorem ldProof_rsa_key_only_ps256 (L : LdEnv) (key : Key) (canon : Bool) (jws : Bytes) (vs : List Verified)
+    (h : ldProofVerifyBytes Facts.C17.ecAlgBitsTable Facts.C17.sigAlgRsa Facts.C17.sigAlgEd .rsa L key canon jws = .accept vs) :
+    ∃ v, vs = [v] ∧ v.alg = "PS256" ∧ v.alg ∈ Facts.C17.supportedAlgs ∧ L.verifiesDetached key "PS256" = true := by
+  obtain ⟨v, _, _, hv, _, _, halg, _, hver, _, _, _⟩ := accept_ldProof_bytes .rsa L key canon jws vs h
+  have ha : v.alg = "PS256" := by
+    have : derivedAlg .rsa = some "PS256" := by decide
+    rw [this] at halg; injection halg with halg; exact halg.symm
+  exact ⟨v, hv, ha, by rw [ha]; decide, by rw [← ha]; exact hver⟩
+
+/-- negation for the header rule of seeded mutation C17-w9m1: an RSA key holder's RS256 proof is accepted, although RS256 is on no allow-list -/
+theorem header_alg_rule_accepts_rs256 :
+    ∃ vs v, ldProofVerifyHdr { keyAlg := fun _ => some "PS256", verifiesDetached := fun _ a => a == "RS256" } "K" (some "RS256") true 2 true = .accept vs ∧
+      vs = [v] ∧ v.alg = "RS256" ∧ v.alg ∉ Facts.C17.supportedAlgs ∧
+      ldProofVerify { keyAlg := fun _ => some "PS256", verifiesDetached := fun _ a => a == "RS256" } "K" true 2 true = .reject :=
+  ⟨_, { key := "K", src := .caller, alg := "RS256", idx := 0, overSigningInput := true }, by decide, rfl, rfl, by decide, by decide⟩
+
 end Nuts.C17.Props
